@@ -77,6 +77,17 @@ func classifyL2(ep string, c *Exchange, allowed []string) checkObs {
 	return ob
 }
 
+// observedCheckKind names the due check the proxy evidently made during this request.
+func observedCheckKind(e *Exchange) string {
+	if firstChild(e, "refresh") != nil {
+		return "refresh"
+	}
+	if firstChild(e, "validate") != nil {
+		return "validate"
+	}
+	return ""
+}
+
 func firstChild(e *Exchange, ep string) *Exchange {
 	for _, c := range e.Children {
 		if c.Link == L2 && endpointOf(c.Path) == ep {
@@ -330,6 +341,22 @@ func (o *Oracle) judgeMediation(e *Exchange, pol *Policy, path string) {
 		}
 	} else {
 		o.res.cover("C01|due=" + due + "|served")
+		// Within a second of a deadline the statement does not say whether a check is due, so nothing is
+		// demanded — but if a check was made, the chain's grace state follows what was observed, exactly
+		// as it does for a check that was definitely due (otherwise the model's outage clock would drift
+		// from the history it is recomputed from).
+		if kind := observedCheckKind(e); kind != "" {
+			_, first, _ := o.readCheck(e, pol, kind)
+			switch first {
+			case "":
+				newM.GraceStart = time.Time{}
+			case "unavail":
+				if newM.GraceStart.IsZero() {
+					newM.GraceStart = at
+				}
+			}
+			o.res.cover("C05|boundary-check|" + kind + "|first=" + first)
+		}
 	}
 
 	// group facts after this request
